@@ -129,6 +129,9 @@ func f32frombits(b uint32) float32 { return mathFloat32frombits(b) }
 // address-space limit of an isolated child (kB); on-disk Badger maps gigabytes of value log
 var isoVmemKB = 3000000
 
+// isoTimeout: how long an isolated case may run before it is killed (and counted as died)
+var isoTimeout = 60 * time.Second
+
 func runIsolated(id string, caseObj interface{}, a *args, idx int) (st *stats, crashed bool, tail string) {
 	dir := filepath.Join(a.out, fmt.Sprintf("iso_%04d", idx))
 	os.MkdirAll(dir, 0755)
@@ -136,7 +139,7 @@ func runIsolated(id string, caseObj interface{}, a *args, idx int) (st *stats, c
 	rp := filepath.Join(dir, "case.json")
 	writeJSON(rp, map[string]interface{}{"case": caseObj})
 	exe, _ := os.Executable()
-	ctx, cancel := context.WithTimeout(context.Background(), 60*time.Second)
+	ctx, cancel := context.WithTimeout(context.Background(), isoTimeout)
 	defer cancel()
 	cmd := exec.CommandContext(ctx, "sh", "-c", fmt.Sprintf("%sexec %s %s -replay %s -out %s -tier %s -seed %d", map[bool]string{true: "", false: fmt.Sprintf("ulimit -v %d; ", isoVmemKB)}[isoVmemKB == 0], exe, id, rp, dir, a.tier, a.seed))
 	out, err := cmd.CombinedOutput()
